@@ -425,7 +425,8 @@ func c08Run(rec *evid.Recorder, c c08Case) bool {
 }
 
 var c08SubPool = []val{vNull(), vInt(0), vInt(-7), vInt(3), vLong(-9223372036854775807), vLong(9007199254740993), vDouble(2.5), vDouble(-0.5), vFloat(1.5), vString("abc"), vString("12"), vString(""),
-	vBool(true), vSpan(1500 * time.Millisecond), vTime(time.Date(2020, 2, 29, 12, 0, 0, 0, time.UTC)), vArray(vInt(1), vString("a"))}
+	vBool(true), vSpan(1500 * time.Millisecond), vTime(time.Date(2020, 2, 29, 12, 0, 0, 0, time.UTC)), vArray(vInt(1), vString("a")),
+	vTime(time.Date(2024, 1, 1, 1, 30, 0, 0, east3))}
 
 func TestC08_Exhaustive(t *testing.T) {
 	rec := evid.New("C08", "TestC08_Exhaustive", "C08", c08Rule)
@@ -493,4 +494,35 @@ func TestC08_Rapid(t *testing.T) {
 			rt.Fatalf("C08 violated")
 		}
 	})
+}
+
+// TestC08_EnumRandomRange: Rnd / Random stay inside [0, 1) over tens to hundreds of millions of draws. This is
+// the one place where the oracle is a range over samples of the library's own random source (the functions use the
+// process-wide generator, which the harness cannot seed per case); the count of draws is the evidence.
+func TestC08_EnumRandomRange(t *testing.T) {
+	rec := evid.New("C08", "TestC08_EnumRandomRange", "C08", c08Rule+"; random range: every draw of Rnd / Random must lie in [0, 1)")
+	defer finish(t, rec)
+	perWorker := pick(2000000, 30000000)
+	workers := 16
+	rec.Bounds = fmt.Sprintf("%d draws of Rnd and Random (%d workers x %d)", workers*perWorker, workers, perWorker)
+	var bad int64
+	parallelFor(workers, func(w int) {
+		name := []string{"Rnd", "Random"}[w%2]
+		f := functions.NewDefaultFunctionCollection().FindByName(name)
+		ops := opsManager(w%4 < 2)
+		for i := 0; i < perWorker; i++ {
+			v, err := f.Calculate(nil, ops)
+			if err != nil || v == nil || v.Type() != variants.Float || !(v.AsFloat() >= 0 && v.AsFloat() < 1) {
+				c := c08Case{name, nil, w%4 < 2}
+				rec.Fail(evid.F("random-out-of-range", "%s() returned %s (%v) after %d draws", name, resultRepr(v, err), err, i), c)
+				bad++
+				return
+			}
+		}
+		rec.Label("draws:"+name, int64(perWorker))
+	})
+	for w := 0; w < workers; w++ {
+		c := c08Case{[]string{"Rnd", "Random"}[w%2], nil, w%4 < 2}
+		rec.Case(fmt.Sprintf("worker %d", w), true, func() interface{} { return fmt.Sprintf("%s() x %d", c.Name, perWorker) })
+	}
 }
